@@ -68,9 +68,12 @@ def exchange(ctx, relay, ops_text, depth, multiple, expected, fault, wit):
     results, exc = [], None
     conn = None
     try:
-        conn = client.connector(host=relay.address[0], port=relay.address[1], timeout=0.4)
+        # only a withheld frame leaves the client waiting on an open connection: there the short timeout ends the wait; cuts end the
+        # connection themselves, and the fault-free run must not be decided by the clock of a loaded machine
+        tmo = 0.4 if (fault and 'withheld' in fault) else 20.0
+        conn = client.connector(host=relay.address[0], port=relay.address[1], timeout=tmo)
         with conn:
-            for idx, dsc, req, rpy, sts, val in conn.operate(client.parse_operations(ops_text), depth=depth, multiple=multiple, timeout=0.4):
+            for idx, dsc, req, rpy, sts, val in conn.operate(client.parse_operations(ops_text), depth=depth, multiple=multiple, timeout=tmo):
                 results.append((sts, None if val is None else (True if val is True else list(val))))
     except Exception as e:
         exc = e
@@ -82,10 +85,13 @@ def exchange(ctx, relay, ops_text, depth, multiple, expected, fault, wit):
                 pass
     # wait for the relay's bookkeeping of this connection
     rec = relay.records[-1]
-    for _ in range(200):
+    for _ in range(2000):
         if rec['done']:
             break
         time.sleep(0.005)
+    if not rec['done']:
+        ctx.inconclusive_because('the relay did not finish its bookkeeping of a connection within 10 s (watchdog)')
+        return results, exc, None
     w = dict(wit, fault=fault, results=len(results), exception=repr(exc)[:200] if exc else None)
     ctx.count('outcome:exception' if exc is not None else 'outcome:complete')
     if fault is None:
@@ -117,6 +123,8 @@ def run_setting(ctx, sim, rng, depth, multiple, quick):
     try:
         res, exc, rec = exchange(ctx, relay, ops_text, depth, multiple, None, None, wit)
         expected = [(0, [value_of(i)]) for i in idxs]
+        if rec is None:
+            return
         if exc is not None or res != expected:
             ctx.inconclusive_because('fault-free exchange through the relay did not give the expected results: %r %r' % (exc, res[:3]))
             return
